@@ -899,7 +899,8 @@ class CompressedBlockColumn(Column):
             pos = 0
             while pos < length:
                 startdoc, enddoc, blocklen, lengths = dbfile.read_pickle()
-                here = dbfile.tell()
+                # Block positions are relative to the start of the column
+                here = dbfile.tell() - basepos
                 self._blocks.append((startdoc, enddoc, here, blocklen,
                                      lengths))
                 dbfile.seek(blocklen, 1)
@@ -936,7 +937,7 @@ class CompressedBlockColumn(Column):
             i = self._find_block(docnum)
             if i is None:
                 return emptybytes
-            return self._get_block(i)[docnum]
+            return self._get_block(i).get(docnum, emptybytes)
 
         def __iter__(self):
             last = -1
@@ -944,7 +945,7 @@ class CompressedBlockColumn(Column):
                 startdoc = block[0]
                 enddoc = block[1]
                 if startdoc > (last + 1):
-                    for _ in xrange(startdoc - last):
+                    for _ in xrange(startdoc - last - 1):
                         yield emptybytes
                 values = self._get_block(i)
                 for docnum in xrange(startdoc, enddoc + 1):
@@ -953,8 +954,8 @@ class CompressedBlockColumn(Column):
                     else:
                         yield emptybytes
                 last = enddoc
-            if enddoc < self._doccount - 1:
-                for _ in xrange(self._doccount - enddoc):
+            if last < self._doccount - 1:
+                for _ in xrange(self._doccount - last - 1):
                     yield emptybytes
 
 
